@@ -186,6 +186,8 @@ pub struct Divergence {
     pub property: &'static str,
     pub kind: &'static str,
     pub detail: String,
+    /// Detected at, or at the first op after, a Compute: the cause may lie inside a child.
+    pub after_compute: bool,
 }
 
 pub struct LockStep {
@@ -207,8 +209,8 @@ pub struct LockStep {
     pub stopped: Option<&'static str>,
     pub divergence: Option<Divergence>,
     pub last_op: Option<Op>,
-    /// Model state before the diverging Compute op and the real repeat stack (for diagnosis).
-    pub compute_diag: Option<(Machine, Repeat)>,
+    /// Model state before the most recent Compute op and the real repeat stack (for diagnosis).
+    pub last_compute: Option<(Machine, Repeat)>,
     pub finished: bool,
 }
 
@@ -292,7 +294,8 @@ impl essential_vm::verif::StepObserver for Monitor {
 
 impl LockStep {
     fn diverge(&mut self, property: &'static str, kind: &'static str, detail: String) {
-        self.divergence = Some(Divergence { property, kind, detail });
+        let after_compute = matches!(self.last_op, Some(Op::Compute(asm::Compute::Compute)));
+        self.divergence = Some(Divergence { property, kind, detail, after_compute });
     }
 
     fn check(&mut self, vm: &Vm, op: &Op, gas_spent: u64, failed: bool) {
@@ -344,11 +347,9 @@ impl LockStep {
                 format!("at pc {} ({op:?}) the VM has spent {gas_spent}, the reference {}", vm.pc, env.gas),
             );
         }
-        let pre = if matches!(op, Op::Compute(asm::Compute::Compute)) {
-            Some(self.m.clone())
-        } else {
-            None
-        };
+        if matches!(op, Op::Compute(asm::Compute::Compute)) {
+            self.last_compute = Some((self.m.clone(), vm.repeat.clone()));
+        }
         let reads_before = env.reads.len();
         let r = model::step(&mut self.m, *op, &mut env, self.depth);
         self.gas = env.gas;
@@ -383,17 +384,14 @@ impl LockStep {
                 self.finished = true;
                 if !failed {
                     let (p, k) = if r == Err(Fail::OutOfGas) { ("C07", "children-beyond-limit") } else { (prop, "should-fail") };
-                    self.compute_diag = pre.map(|p| (p, vm.repeat.clone()));
                     self.diverge(p, k, format!("{op:?} at pc {} succeeded but the reference says it must fail; stack tail {:?}", vm.pc, tail(&vm.stack)));
                 }
             }
             Ok(flow) => {
                 if failed {
-                    self.compute_diag = pre.map(|p| (p, vm.repeat.clone()));
                     return self.diverge(prop, "unexpected-failure", format!("{op:?} at pc {} failed but the reference says it succeeds with stack tail {:?}", vm.pc, tail(&self.m.stack)));
                 }
                 if vm.stack[..] != self.m.stack[..] || vm.memory[..] != self.m.mem[..] || vm.repeat.depth() != self.m.rep.len() {
-                    self.compute_diag = pre.map(|p| (p, vm.repeat.clone()));
                     return self.diverge(
                         prop,
                         "state-mismatch",
@@ -581,7 +579,7 @@ pub fn run_real(
                     stopped: None,
                     divergence: None,
                     last_op: None,
-                    compute_diag: None,
+                    last_compute: None,
                     finished: false,
                 })
             });
@@ -700,12 +698,13 @@ pub fn judge(case: &VmCase, rep: &mut Report, mon: &Monitor, pools: &mut Pools, 
         if let Some(d) = &ls.divergence {
             lock_div = true;
             let mut d = d.clone();
-            if let (Some((pre, repeat)), true) = (&ls.compute_diag, d.property == "C10") {
+            if let (Some((pre, repeat)), true) = (&ls.last_compute, d.after_compute) {
                 if let Some(inner) = diagnose_compute(pre, repeat, &ctx, rep) {
                     d = Divergence {
                         property: inner.property,
                         kind: inner.kind,
                         detail: format!("inside a compute child: {} (seen at the join as: {})", inner.detail, d.detail),
+                        after_compute: false,
                     };
                 }
             }
@@ -714,29 +713,30 @@ pub fn judge(case: &VmCase, rep: &mut Report, mon: &Monitor, pools: &mut Pools, 
     }
 
     // Final comparison (independent of the hook).
+    let mut issues: Vec<(&'static str, &'static str, String)> = vec![];
     if !lock_div {
         match (&mres, &res) {
             (Ok(()), Ok(g)) => {
                 out.ok = true;
                 rep.count("outcome.ok");
                 if *g as u128 != mgas {
-                    rep.violation("C07", "gas-mismatch", format!("VM reports gas {g}, reference total is {mgas}"), case_json());
+                    issues.push(("C07", "gas-mismatch", format!("VM reports gas {g}, reference total is {mgas}")));
                 }
                 if real.cost_sum != *g as u128 {
-                    rep.violation("C07", "gas-not-sum-of-costs", format!("VM reports gas {g} but the cost function handed out {} over {} queries", real.cost_sum, real.queries), case_json());
+                    issues.push(("C07", "gas-not-sum-of-costs", format!("VM reports gas {g} but the cost function handed out {} over {} queries", real.cost_sum, real.queries)));
                 }
                 if *g > case.limit {
-                    rep.violation("C07", "limit-exceeded", format!("Ok({g}) exceeds the limit {}", case.limit), case_json());
+                    issues.push(("C07", "limit-exceeded", format!("Ok({g}) exceeds the limit {}", case.limit)));
                 }
                 if real.queries != mexec {
-                    rep.violation("C10", "op-count-mismatch", format!("{} operations were charged for, the sequential reference executes {mexec}", real.queries), case_json());
+                    issues.push(("C10", "op-count-mismatch", format!("{} operations were charged for, the sequential reference executes {mexec}", real.queries)));
                 }
                 let last = real.lock.as_ref().and_then(|l| l.last_op);
                 if real.vm.pc != m.pc {
                     let p = last.as_ref().map(op_property).map(|p| if p == "C10" { "C10" } else { "C09" }).unwrap_or("C09");
-                    rep.violation(p, "final-pc", format!("final pc {} but the reference ends at {} (last op {last:?})", real.vm.pc, m.pc), case_json());
+                    issues.push((p, "final-pc", format!("final pc {} but the reference ends at {} (last op {last:?})", real.vm.pc, m.pc)));
                 } else if real.vm.stack[..] != m.stack[..] || real.vm.memory[..] != m.mem[..] {
-                    rep.violation("C08", "final-state", format!("final stack/memory differ: VM stack tail {:?} mem {} | reference stack tail {:?}", tail(&real.vm.stack), first_diff(&real.vm.memory, &m.mem), tail(&m.stack)), case_json());
+                    issues.push(("C08", "final-state", format!("final stack/memory differ: VM stack tail {:?} mem {} | reference stack tail {:?}", tail(&real.vm.stack), first_diff(&real.vm.memory, &m.mem), tail(&m.stack))));
                 }
                 // exact requests (sequence for programs without children, multiset otherwise)
                 let mut got: Vec<_> = real.reads.iter().map(|e| (e.view, e.contract.clone(), e.key.clone(), e.count)).collect();
@@ -746,29 +746,28 @@ pub fn judge(case: &VmCase, rep: &mut Report, mon: &Monitor, pools: &mut Pools, 
                     exp.sort();
                 }
                 if got != exp {
-                    rep.violation("C11", "request-log", format!("state requests differ: observed {} expected {}", got.len(), exp.len()), case_json());
+                    issues.push(("C11", "request-log", format!("state requests differ: observed {} expected {}", got.len(), exp.len())));
                 }
                 rep.add("reads.observed", got.len() as u64);
             }
             (Err(f), Err(e)) => {
                 rep.count(if e.oog { "outcome.err.out_of_gas" } else { "outcome.err.op" });
                 if e.index != m.pc {
-                    rep.violation(
+                    issues.push((
                         real.lock.as_ref().and_then(|l| l.last_op).as_ref().map(op_property).unwrap_or("C05"),
                         "error-index",
                         format!("error reported at op {} but the failing op is {} ({})", e.index, m.pc, e.text),
-                        case_json(),
-                    );
+                    ));
                 }
                 if !m_in_child {
                     let m_oog = *f == Fail::OutOfGas;
                     if m_oog != e.oog {
-                        rep.violation("C07", "oog-class", format!("reference says out_of_gas={m_oog}, VM error is {}", e.text), case_json());
+                        issues.push(("C07", "oog-class", format!("reference says out_of_gas={m_oog}, VM error is {}", e.text)));
                     }
                     if m_oog && e.top_level_oog {
                         // the refused op must have had no effect
                         if real.vm.stack[..] != m.stack[..] || real.vm.memory[..] != m.mem[..] || real.vm.pc != m.pc {
-                            rep.violation("C07", "oog-state", format!("state after the out-of-gas error differs from the state before the refused op (pc {} vs {})", real.vm.pc, m.pc), case_json());
+                            issues.push(("C07", "oog-state", format!("state after the out-of-gas error differs from the state before the refused op (pc {} vs {})", real.vm.pc, m.pc)));
                         }
                     }
                 }
@@ -777,18 +776,33 @@ pub fn judge(case: &VmCase, rep: &mut Report, mon: &Monitor, pools: &mut Pools, 
                 if cmin > 0 && case.limit < u64::MAX {
                     let bound = (1 + mchildren as u128 + 1) * (case.limit as u128 / cmin as u128 + 1);
                     if real.queries as u128 > bound {
-                        rep.violation("C07", "progress-bound", format!("{} cost queries exceed the bound {bound}", real.queries), case_json());
+                        issues.push(("C07", "progress-bound", format!("{} cost queries exceed the bound {bound}", real.queries)));
                     }
                 }
             }
             (Ok(()), Err(e)) => {
                 let p = if e.oog { "C07" } else { ops.get(e.index).map(op_property).unwrap_or("C05") };
-                rep.violation(p, "unexpected-error", format!("VM failed at op {} ({}) but the reference succeeds with gas {mgas}", e.index, e.text), case_json());
+                issues.push((p, "unexpected-error", format!("VM failed at op {} ({}) but the reference succeeds with gas {mgas}", e.index, e.text)));
             }
             (Err(f), Ok(g)) => {
                 let p = if *f == Fail::OutOfGas { "C07" } else { ops.get(m.pc).map(op_property).unwrap_or("C05") };
-                rep.violation(p, "missing-error", format!("VM returned Ok({g}) but the reference fails at op {} ({f:?}, limit {})", m.pc, case.limit), case_json());
+                issues.push((p, "missing-error", format!("VM returned Ok({g}) but the reference fails at op {} ({f:?}, limit {})", m.pc, case.limit)));
             }
+        }
+    }
+
+    if !issues.is_empty() {
+        // If the last thing the VM did was a Compute, the cause may lie inside a child.
+        if let Some(ls) = &real.lock {
+            if let (Some((pre, repeat)), Some(Op::Compute(asm::Compute::Compute))) = (&ls.last_compute, ls.last_op) {
+                if let Some(inner) = diagnose_compute(pre, repeat, &ctx, rep) {
+                    let seen = issues.iter().map(|i| i.1).collect::<Vec<_>>().join(",");
+                    issues = vec![(inner.property, inner.kind, format!("inside a compute child: {} (seen at the end as: {seen})", inner.detail))];
+                }
+            }
+        }
+        for (p, k, d) in issues {
+            rep.violation(p, k, d, case_json());
         }
     }
 
